@@ -82,12 +82,69 @@ def search(qual, pairs):
 
 
 def replay(rec):
+    if rec.get('property') == 'C01':
+        obs = goto_binary()
+        bad = [o for o in obs if o.get('verdict', 'discharged') != 'discharged']
+        return bool(bad), 'beat.goto binary: %s' % ([(o['note'], (o['native'] or {}).get('example')) for o in bad] or 'no failure')
     obs = check('beat.cemgil', [(0, 1)], 2) + check('beat.continuity', [(0, 2), (1, 3)], 4)
     bad = [o for o in obs if o.get('verdict', 'discharged') != 'discharged']
     return bool(bad), 'beat metric levels: %s' % ([(o['id'], o['note'], (o['native'] or {}).get('example')) for o in bad] or 'no failure')
 
 
+def goto_binary():
+    """C01: beat.goto is exactly 0 or 1 - every `return` of the real function is the constant 0.0 or `1.0 * (comparison)`"""
+    mod, fd = frontend.function('beat.goto')
+    rets = [n for n in ast.walk(fd) if isinstance(n, ast.Return)]
+    bad = []
+    for r in rets:
+        v = r.value
+        ok = (isinstance(v, ast.Constant) and v.value in (0, 0.0, 1, 1.0)) or \
+             (isinstance(v, ast.BinOp) and isinstance(v.op, ast.Mult) and isinstance(v.left, ast.Constant) and v.left.value in (1, 1.0)
+              and isinstance(v.right, ast.Compare))
+        if not ok:
+            bad.append('line %d returns `%s`' % (r.lineno, ast.unparse(v) if v is not None else 'None'))
+    ok = bool(rets) and not bad
+    nat = None
+    if not ok:
+        nat = search_goto()
+        if not nat['confirmed']:
+            return [dict(unrecognised='beat.goto', why='; '.join(bad))]
+    return [dict(id='beat.goto#post:binary', kind='post', label='binary', props=['C01'], line=fd.lineno, note='' if ok else '; '.join(bad), expect='unsat',
+                 verdict='discharged' if ok else 'refuted', backend='ast-structural', time=0.0, model=None if ok else dict(function='beat.goto', why=bad),
+                 goal='every return value of beat.goto is 0.0 or 1.0 * (boolean)', native=nat, finding=None)]
+
+
+def search_goto():
+    import random
+    import warnings
+    from .. import native
+    native.import_repo()
+    import numpy as np
+    import mir_eval
+    rng = random.Random(0)
+    with warnings.catch_warnings():
+        warnings.simplefilter('ignore')
+        for it in range(300):
+            period = rng.choice([0.4, 0.5, 0.6])
+            ref = np.array([6.0 + period * k for k in range(rng.randint(3, 14))])
+            est = np.sort(np.array([t + rng.choice([0, 0, 0.01, -0.02, 0.1]) for t in ref if rng.random() < 0.9] or [6.0]))
+            try:
+                r = mir_eval.beat.goto(ref, est)
+            except Exception:
+                continue
+            if r not in (0.0, 1.0):
+                return dict(confirmed=True, example='beat.goto(%s, %s) = %r is neither 0 nor 1' % (ref.tolist(), est.tolist(), r))
+    return dict(confirmed=False, detail='no input found on which beat.goto is not 0 or 1')
+
+
 def run(prop, tier, seed, known):
+    if prop == 'C01':
+        obs = goto_binary()
+        bounded = [dict(name='beat.goto is 0 or 1 (return shape not recognised by the structural rule: %s)' % o['why'], bound='300 random beat sequences', cases=300,
+                        exhaustive=False, failures=[], wall_s=0.0) for o in obs if 'unrecognised' in o]
+        obs = [o for o in obs if 'unrecognised' not in o]
+        return dict(results=[dict(kind='engine', engine='beatstruct', name='beat.goto binary', status='ok', detail='', paths=0, obligations=obs, inlined=[],
+                                  used_contracts=[], gen_time=0, wall=0, lib_used=[], props=['C01'])], bounded=bounded)
     obs = check('beat.cemgil', [(0, 1)], 2) + check('beat.continuity', [(0, 2), (1, 3)], 4)
     bounded = [dict(name='%s: first-level score <= best-level score (return shape not recognised by the structural rule: %s)' % (o['unrecognised'], o['why']),
                     bound='400 random beat sequences', cases=400, exhaustive=False, failures=[], wall_s=0.0) for o in obs if 'unrecognised' in o]
